@@ -35,6 +35,8 @@ RULE = ("cases = (a) module lists (the names ssh.connect packages plus extra and
         "negative/huge, None, resolver strings, strings with quotes, backslashes, control and non-ASCII characters); "
         "(c) malformed streams (length-line variants, padded / non-ASCII / orphan names, truncation, corrupt zlib); "
         "(d) client._main start-up traces under random server-output segmentations and write grants; "
+        "(e) assembler.py's real main(...) call bound against the real server.main signature for pairwise distinct "
+        "option values, and the real server.py entered by the real assembler in a child interpreter; "
         "non-trivial = a read crossed a segment boundary, an error branch was taken, or a trace was decided; "
         "distinct = distinct canonical model input")
 MANIFEST = dict(
@@ -45,7 +47,8 @@ MANIFEST = dict(
                 "exactly the client's (name, source bytes) list in order and consumes exactly the upload (C18_framing, "
                 "C18_connect_assembles); the packaged bytes are the file's bytes (C18_source_bytes); rendering options "
                 "with %r, encoding as UTF-8, decoding and evaluating them remotely returns the same bool/int/None/str values "
-                "(C18_options, C18_options_wire); the "
+                "(C18_options, C18_options_wire), and every parameter of the real server.main receives the option of the same "
+                "name from assembler.py's call (C18_server_main_receives); the "
                 "client writes only content and content2 before the init string is accepted (C18_nothing_before_sync). "
                 "The model is tied to the code on every run by differential runs of the real functions and the real "
                 "assembler source, plus an oracle on the real code (thorough: through a real child interpreter)."),
@@ -1157,6 +1160,83 @@ def main_check(ctx, case, events, outcome, got, log):
                       expected='writes before sync = [content, content2] only', observed=bad, kind='ops')
 
 
+# ---------------------------------------------------------------- (e) entering the real server.main
+
+def client_option_keys():
+    """the keys of `options=dict(...)` in the real client._main"""
+    import ast
+    with open(os.path.join(common.REPO, 'sshuttle', 'client.py'), 'rb') as f:
+        tree = ast.parse(f.read())
+    for c in ast.walk(tree):
+        if isinstance(c, ast.Call) and isinstance(c.func, ast.Attribute) and c.func.attr == 'connect':
+            for kw in c.keywords:
+                if kw.arg == 'options' and isinstance(kw.value, ast.Call):
+                    return [k.arg for k in kw.value.keywords]
+    return []
+
+
+def distinct_options(rng, keys):
+    """random option values, pairwise different (so an exchange of two of them is visible)"""
+    while True:
+        opts = [(k, rand_option_value(rng)) for k in keys]
+        if len({val_tok(v) for _k, v in opts}) == len(opts):
+            return opts
+
+
+def enter_main(opts):
+    """The argument expressions of assembler.py's real `main(...)` call, evaluated on an options
+    module holding `opts`, bound against the signature of the real `sshuttle.server.main`.
+    -> ('ok', [(param, value)]) | ('typeError', msg) | ('attributeError', msg)"""
+    import ast
+    import inspect
+    import sshuttle.server as server
+    with open(os.path.join(common.REPO, 'sshuttle', 'assembler.py'), 'rb') as f:
+        tree = ast.parse(f.read())
+    call = [c for c in ast.walk(tree) if isinstance(c, ast.Call) and isinstance(c.func, ast.Name) and c.func.id == 'main'][0]
+    ns = {'options': types.SimpleNamespace(**dict(opts))}
+
+    def ev(e):
+        return eval(builtins.compile(ast.Expression(e), 'assembler.py', 'eval'), ns)
+    try:
+        args = [ev(e) for e in call.args]
+        kwargs = {kw.arg: ev(kw.value) for kw in call.keywords}
+    except AttributeError as e:
+        return 'attributeError', str(e)
+    try:
+        b = inspect.signature(server.main).bind(*args, **kwargs)
+    except TypeError as e:
+        return 'typeError', str(e)
+    return 'ok', list(b.arguments.items())
+
+
+def binding_problem(opts, kind, got):
+    if kind != 'ok':
+        return '%s: %s' % (kind, got)
+    want = dict(opts)
+    for p, v in got:
+        if p not in want:
+            return 'parameter %s of server.main is not an option the client sends' % p
+        if val_tok(v) != val_tok(want[p]):
+            return 'server.main parameter %s = %s, the client gave %s = %s' % (p, val_tok(v), p, val_tok(want[p]))
+    missing = [k for k in want if k not in dict(got)]
+    if missing:
+        return 'options never handed to server.main: %s' % missing
+    return None
+
+
+def binding_case(ctx, opts, log):
+    kind, got = enter_main(opts)
+    out = ','.join('%s:%s' % (p, val_tok(v)) for p, v in got) if kind == 'ok' else kind
+    log.add('enter o=%s' % opts_tok(opts), out)
+    log.nontrivial = True
+    bad = binding_problem(opts, kind, got)
+    if bad:
+        ctx.violation('C18:options:server-main-binding', case=dict(stream='binding', options=[[k, v] for k, v in opts]),
+                      expected='every parameter of the real server.main receives the client\'s option of the same name',
+                      observed=bad, note='assembler.py\'s call expression bound against the real server.main signature',
+                      kind='input')
+
+
 # ---------------------------------------------------------------- (ii) thorough: a real child interpreter
 
 SUB_PKG_INIT = (b"import sys, builtins, hashlib, json\n"
@@ -1168,11 +1248,17 @@ SUB_PKG_INIT = (b"import sys, builtins, hashlib, json\n"
                 b"        _rec[name] = hashlib.sha256(src).hexdigest()\n"
                 b"    return _orig(src, name, mode, *a, **k)\n"
                 b"builtins.compile = _compile\n")
-SUB_SERVER = (b"import sys, json\nimport sshuttle\n"
-              b"def main(*a):\n"
-              b"    out = dict(rec=sshuttle._rec, args=[[type(x).__name__, (list(map(ord, x)) if isinstance(x, str) else x)] for x in a])\n"
-              b"    sys.stdout.write('\\0\\0SSHUTTLE0001' + json.dumps(out))\n"
-              b"    sys.stdout.flush()\n")
+# appended to the REAL sshuttle/server.py: `main` is entered by the real assembler call, its arguments are
+# bound by the real parameter list, reported, and the I/O loop is not started
+SUB_SERVER_TRAILER = (b"\n\nimport inspect as _c18_inspect, json as _c18_json\n"
+                      b"_c18_real_main = main\n"
+                      b"def main(*a, **k):\n"
+                      b"    import sshuttle\n"
+                      b"    b = _c18_inspect.signature(_c18_real_main).bind(*a, **k)\n"
+                      b"    out = dict(rec=sshuttle._rec, bound=[[n, type(x).__name__, (list(map(ord, x)) if isinstance(x, str) else x)]\n"
+                      b"                                         for n, x in b.arguments.items()])\n"
+                      b"    sys.stdout.write('\\0\\0SSHUTTLE0001' + _c18_json.dumps(out))\n"
+                      b"    sys.stdout.flush()\n")
 
 
 class _SegWriter:
@@ -1242,7 +1328,7 @@ def subprocess_case(ctx, sub_seed, scratch, names, keys):
             pad = rng.choice([b'', b'# \xe2\x82\xac\r\n', b'x = """a\r\nb"""\n'])
             files[n] = SUB_PKG_INIT + pad
         elif n == 'sshuttle.server':
-            files[n] = SUB_SERVER
+            files[n] = file_bytes(os.path.join(real_dir, 'server.py')) + SUB_SERVER_TRAILER
         else:
             rel = n.split('.')[1:]
             base = file_bytes(os.path.join(real_dir, *rel) + '.py')
@@ -1257,7 +1343,7 @@ def subprocess_case(ctx, sub_seed, scratch, names, keys):
             elif k == 'utf8':
                 base += ('\n# ' + ''.join(chr(rand_cp(rng)) for _ in range(500)).replace('\n', ' ').replace('\r', ' ') + '\n').encode('utf-8')
             files[n] = base
-    opts = [(k, rand_option_value(rng)) for k in keys]
+    opts = distinct_options(rng, keys)
     paths = {n: scratch.put(d) for n, d in files.items()}
     paths['sshuttle.assembler'] = os.path.join(real_dir, 'assembler.py')
     fi = FakeImportlib(paths)
@@ -1304,11 +1390,13 @@ def subprocess_case(ctx, sub_seed, scratch, names, keys):
             ctx.violation('C18:subprocess:source-differs', case=case, expected='%s sha256 %s' % (n, want),
                           observed=str(rep['rec'].get(n)), kind='input')
     got = []
-    for t, x in rep['args']:
-        got.append(''.join(map(chr, x)) if t == 'str' else (None if t == 'NoneType' else x))
-    if got != [v for _k, v in opts] or [t for t, _x in rep['args']] != [type(v).__name__ for _k, v in opts]:
-        ctx.violation('C18:options:values-differ', case=case, expected=[val_tok(v) for _k, v in opts],
-                      observed=[val_tok(v) for v in got], kind='input')
+    for n, t, x in rep['bound']:
+        got.append((n, ''.join(map(chr, x)) if t == 'str' else (None if t == 'NoneType' else (bool(x) if t == 'bool' else x))))
+    bad = binding_problem(opts, 'ok', got)
+    if bad:
+        ctx.violation('C18:options:server-main-binding', case=case,
+                      expected='every parameter of the real server.main receives the client\'s option of the same name',
+                      observed=bad, note='real server.main entered by the real assembler in a child interpreter', kind='input')
     ctx.mark(('subprocess', sorted(case['files'].items()), case['options']))
 
 
@@ -1448,17 +1536,24 @@ def run(ctx):
             main_case(ctx, rng, scratch, names, keys, lg)
             logs.append(lg)
             ctx.count()
+        # (e) the real call bound against the real signature
+        okeys = client_option_keys()
+        lg = Log('binding')
+        for _ in range(ctx.scale(40, 400)):
+            binding_case(ctx, distinct_options(rng, okeys), lg)
+            ctx.count()
+        logs.append(lg)
         if ctx.thorough:
             for _ in range(12 * ctx.boost):
-                subprocess_case(ctx, rng.randrange(1 << 30), scratch, names, keys)
+                subprocess_case(ctx, rng.randrange(1 << 30), scratch, names, okeys)
         else:
-            subprocess_case(ctx, rng.randrange(1 << 30), scratch, names, keys)
+            subprocess_case(ctx, rng.randrange(1 << 30), scratch, names, okeys)
     finally:
         scratch.close()
     for lg in logs:
         ctx.hist(lg.kind)
         ctx.mark(lg.ins, lg.nontrivial)
-    for kind in ('e2e', 'connect', 'malformed', 'main', 'src'):
+    for kind in ('e2e', 'connect', 'malformed', 'main', 'src', 'binding'):
         for lg in logs:
             if lg.kind == kind and lg.ins:
                 ctx.sample(dict(kind=kind, input=[l[:160] for l in lg.ins[:3]], real_code_output=[l[:160] for l in lg.outs[:3]]))
@@ -1492,8 +1587,13 @@ def replay(ctx, rep):
             lg = Log('main')
             main_check(ctx, case, ev, outcome, got, lg)
             return bool(ctx.violations), 'trace: %s' % lg.outs[0][:300]
+        if st == 'binding':
+            opts = [tuple(o) for o in case['options']]
+            kind, got = enter_main(opts)
+            bad = binding_problem(opts, kind, got)
+            return bool(bad), bad or 'server.main receives ' + ','.join('%s:%s' % (p, val_tok(v)) for p, v in got)
         if st == 'subprocess':
-            subprocess_case(ctx, case['sub_seed'], scratch, packaged_names(), main_arg_keys())
+            subprocess_case(ctx, case['sub_seed'], scratch, packaged_names(), client_option_keys())
             return bool(ctx.violations), '; '.join('%s: %s' % (v['key'], str(v['observed'])[:120]) for v in ctx.violations) or \
                 'the child interpreter reported the client\'s sources and options'
     finally:
